@@ -52,6 +52,7 @@ class Behaviour:
         self.markers: list[str] = []
         self.n = 0
         self.exited = False
+        self.fired: list[float] = []
 
     async def at(self, cmd: Any, point: str, pos: str) -> None:
         plan = self.plan
@@ -93,6 +94,12 @@ class _Mixin:
 
     async def run(self) -> int:  # type: ignore[override]
         self.behaviour.world.rec.rec("run_begin")
+        plan = self.behaviour.plan
+        if plan.get("sigint_frac") is not None:
+            # Ctrl-C at a fraction of the expected duration of setup+main+teardown (so that it usually lands inside run())
+            est = sum(plan["steps"].values()) * plan["step_sleep"] + {"script": 0.002, "scanner": 0.01, "uds": 0.75}[plan["kind"]]
+            w = self.behaviour.world
+            w.sigint_at(w.loop.time() + plan["sigint_frac"] * est, self.behaviour.fired)
         try:
             return await super().run()  # type: ignore[misc]
         finally:
@@ -199,7 +206,9 @@ class C15(Check):
             plan["kind"] = rng.choice(["script", "scanner", "uds"])
             pt = rng.choice(POINTS)
             plan["exit"] = {"kind": rng.choice(EXIT_KINDS + ["return"] * 3), "point": pt[0], "pos": pt[1]}
-            plan["sigint"] = round(rng.uniform(0.0, 1.6 if plan["kind"] == "uds" else 0.6), 4) if rng.random() < 0.45 else None
+            r_ = rng.random()
+            plan["sigint"] = round(rng.uniform(0.0, 1.4 if plan["kind"] == "uds" else 0.25), 4) if r_ < 0.2 else None
+            plan["sigint_frac"] = round(rng.uniform(0.0, 1.15), 4) if 0.2 <= r_ < 0.6 else None
         plan["artifacts"] = rng.random() < 0.8
         plan["db"] = rng.random() < 0.7
         plan["lock"] = rng.random() < 0.5
@@ -218,7 +227,7 @@ class C15(Check):
         import copy
 
         for key, val in (("lock", False), ("db", False), ("hooks", False), ("pre_hook", "absent"), ("post_hook", "absent"),
-                         ("sigint", None), ("pump", "eager"), ("artifacts", False), ("trace_log", False)):
+                         ("sigint", None), ("sigint_frac", None), ("pump", "eager"), ("artifacts", False), ("trace_log", False)):
             if plan.get(key) != val:
                 p = copy.deepcopy(plan)
                 p[key] = val
